@@ -38,10 +38,22 @@ type TableDef struct {
 	ID   uint64
 	DB   string
 	Name string
-	Cols []ColDef
+	// Alias, when set: the table mapper answers for this table under this name
+	// (same schema) instead of the name it was asked for - a mapper that folds
+	// shards or partitions into one logical table. Delivered events carry it.
+	Alias string
+	Cols  []ColDef
 	// Optional metadata appended to every table map of this table (8.0 style).
 	OptMeta []byte
 	Flags   uint16
+}
+
+// shownName is the table name delivered events carry: what the mapper answered.
+func (t *TableDef) shownName() string {
+	if t.Alias != "" {
+		return t.Alias
+	}
+	return t.Name
 }
 
 // ExpCol is the expectation for one column of one row image.
@@ -170,6 +182,7 @@ type GenOpts struct {
 	ForceCfg     *HistCfg
 	BigOffsets   bool
 	TableIDReuse bool   // several ids, re-announcements, type changes
+	AliasMapper  bool   // some histories: the mapper answers some tables under another name
 	OddNames     bool   // unusual binlog file names
 	CountChange  bool   // C15: a cached table id is re-announced with another column count
 	Bulk         int    // one history in Bulk holds a transaction of >1024 / >4096 statements (0 = never)
@@ -845,7 +858,7 @@ func (b *builder) rowsStatement(ts uint32, tables []*TableDef) []ExpEvent {
 			}
 			imgMode := s.Weighted(3, 2, 1)
 			var typ byte
-			ee := ExpEvent{DB: t.DB, Table: t.Name, Timestamp: int64(ts), Marker: b.h.newMarker()}
+			ee := ExpEvent{DB: t.DB, Table: t.shownName(), Timestamp: int64(ts), Marker: b.h.newMarker()}
 			var bitmaps [][]bool
 			var before, after []bool
 			switch kind {
@@ -1184,7 +1197,7 @@ func (b *builder) singleRowsEvent(ts uint32, t *TableDef) []ExpEvent {
 		nrows = 2
 	}
 	imgMode := s.Weighted(3, 2, 1)
-	ee := ExpEvent{DB: t.DB, Table: t.Name, Timestamp: int64(ts), Marker: b.h.newMarker()}
+	ee := ExpEvent{DB: t.DB, Table: t.shownName(), Timestamp: int64(ts), Marker: b.h.newMarker()}
 	var typ byte
 	var before, after []bool
 	var bitmaps [][]bool
@@ -1324,6 +1337,14 @@ func genHistory(s *Stream, o0 *GenOpts) *History {
 		h.Tables = append(h.Tables, t)
 	}
 	oddIdentifiers(s, h.Tables)
+	if o.AliasMapper && manyTables == 0 && s.Chance(1, 5) {
+		// a mapper that answers under a canonical name of its own choosing
+		for i, t := range h.Tables {
+			if s.Chance(1, 2) && len(t.Name) < 200 {
+				t.Alias = fmt.Sprintf("%s_all%d", t.Name, i)
+			}
+		}
+	}
 	if ntab >= 2 && manyTables == 0 && s.Chance(1, 6) {
 		// confusable table ids: every id is the first one with two bytes swapped or
 		// one byte copied over another (id decoding slips collide exactly on these)
@@ -1443,7 +1464,7 @@ func genHistory(s *Stream, o0 *GenOpts) *History {
 			// signedness, other types; both ids stay in use
 			src := h.Tables[s.N(len(h.Tables))]
 			if src.Name != "exact" {
-				nt := &TableDef{DB: src.DB, Name: src.Name, Flags: src.Flags, OptMeta: src.OptMeta}
+				nt := &TableDef{DB: src.DB, Name: src.Name, Alias: src.Alias, Flags: src.Flags, OptMeta: src.OptMeta}
 				maxID := uint64(0)
 				for _, t := range h.Tables {
 					if t.ID > maxID {
@@ -1470,7 +1491,16 @@ func genHistory(s *Stream, o0 *GenOpts) *History {
 			old := h.Tables[s.N(len(h.Tables))]
 			nt := genTable(s, 100+len(h.Tables)+20*len(h.retired), o) // (a name no other table of the history has)
 			nt.ID = old.ID
-			if s.Chance(1, 3) && len(old.Name) < 100 && len(old.DB) < 100 {
+			aliasFree := old.Alias != ""
+			for _, x := range append(append([]*TableDef{}, h.Tables...), h.retired...) {
+				if x.DB == old.DB && x.Name == old.Alias {
+					aliasFree = false // (every table of a history needs a name of its own)
+				}
+			}
+			if aliasFree && s.Chance(1, 2) {
+				// ... the table that literally bears the name the mapper used for the old one
+				nt.DB, nt.Name = old.DB, old.Alias
+			} else if s.Chance(1, 3) && len(old.Name) < 100 && len(old.DB) < 100 {
 				// ... a table whose name differs from the old one in letter case only
 				nt.DB, nt.Name = old.DB, swapCase(old.Name)
 				if nt.Name == old.Name {
@@ -1857,7 +1887,7 @@ func (b *builder) addExactUnit() {
 	body = append(body, p...)
 	ev := b.add(typ, ts, 0, body, fmt.Sprintf("ROWS(exact) packet payload=%d", 1+len(body)+binlogHeaderSize))
 	v := Val{Enc: nil, Text: p}
-	ee := ExpEvent{StType: stInsert, DB: t.DB, Table: t.Name, Timestamp: int64(ts), Marker: h.newMarker(),
+	ee := ExpEvent{StType: stInsert, DB: t.DB, Table: t.shownName(), Timestamp: int64(ts), Marker: h.newMarker(),
 		Values: [][]ExpCol{{{Name: "payload", Type: tBlob, Val: &v}}}}
 	u.Tx = &ExpTx{Unit: b.unit, Next: b.posOf(ev), Timestamp: int64(ev.Timestamp), Events: []ExpEvent{ee}, Commit: ev}
 	u.End = b.off
@@ -1871,7 +1901,7 @@ func (b *builder) addPoisonUnit() {
 	s := b.s
 	h := b.h
 	orig := h.Tables[s.N(len(h.Tables))]
-	t := &TableDef{ID: orig.ID, DB: orig.DB, Name: orig.Name, Flags: orig.Flags}
+	t := &TableDef{ID: orig.ID, DB: orig.DB, Name: orig.Name, Alias: orig.Alias, Flags: orig.Flags}
 	t.Cols = append(t.Cols, orig.Cols...)
 	desc := "tx-with-column-count-change"
 	if s.Chance(1, 3) {
